@@ -157,15 +157,15 @@ theorem copyRange_bounds {r : Bytes} {len st en : Nat} (h : StoreSpec.copyRange 
       · simp at h
 
 /-- `upload_part_copy` comparable: any part number (outside 1..10000: `InvalidArgument` on both sides since 205d9a8; before:
-    fs:part-number-not-validated); otherwise the upload does not exist
-    (`NoSuchUpload` on both sides) or was created for this bucket and key [else fs:upload-not-bound-to-key], source names agree (a missing source bucket is
+    fs:part-number-not-validated); otherwise (whatever upload is named: one that does not exist under this bucket and key is
+    `NoSuchUpload` on both sides since 6bf591c; before: fs:upload-not-bound-to-key) source names agree (a missing source bucket is
     inside since cc244fc: `NoSuchBucket` on both sides), the source is not a directory and its size fits `i64`. Any
     `x-amz-copy-source-range` is inside — whatever the byte string: one that is not `bytes=first-last` inside the source is
     `InvalidArgument` on both sides (18203b6, `copyRange_eq`; before, the backend accepted open-ended ranges and ranges beyond
     the end: fs:part-copy-range-unchecked) -/
-def UploadPartCopyOk (s : State) (b k : Bytes) (u : UploadRef) (n : Int) (sb sk : Bytes) (_range : Option Bytes) : Prop :=
+def UploadPartCopyOk (s : State) (_b _k : Bytes) (_u : UploadRef) (n : Int) (sb sk : Bytes) (_range : Option Bytes) : Prop :=
   (n < 1 ∨ n > 10000) ∨
-  UploadOk s u b k ∧ NameOk sb ∧ CanonKey sk ∧
+  NameOk sb ∧ CanonKey sk ∧
   (bucketOk sb = true →
     match keyPath sk with
     | none => True
@@ -189,10 +189,10 @@ theorem uploadPartCopy_refines (H : Hashes) (dl : Nat) {s : State} (hi : Inv s) 
     Inv (step H dl s (.uploadPartCopy who b k u n sb sk range)).1 := by
   by_cases hnr : n < 1 ∨ n > 10000
   · simp [step, StoreSpec.step, hnr, hi]
-  obtain ⟨hbound, hsname, ⟨_, hscanon⟩, hsrc⟩ := hg.resolve_left hnr
-  rcases hbound.cases with hbound | habs
+  obtain ⟨hsname, ⟨_, hscanon⟩, hsrc⟩ := hg.resolve_left hnr
+  rcases upload_cases s u b k with hbound | habs
   case inr =>
-    have hup := habs.upload b k
+    have hup := habs.upload
     cases u with
     | none => simp [step, StoreSpec.step, hnr, hup, hi]
     | some id => simp [step, StoreSpec.step, hnr, hup, habs.verify who, hi]
@@ -204,7 +204,7 @@ theorem uploadPartCopy_refines (H : Hashes) (dl : Nat) {s : State} (hi : Inv s) 
       cases hskp : keyPath sk with
       | none =>
         have hko : keyOk sk = false := by rw [keyOk_iff_keyPath, hskp]; rfl
-        simp [step, StoreSpec.step, State.verify, hl, hown, hnr, hup, hown', objPath, hsbd, hskp, hsbo, hko, hi]
+        simp [step, StoreSpec.step, State.verify, findUpload_bound hl hb hk, hown, hnr, hup, hown', objPath, hsbd, hskp, hsbo, hko, hi]
       | some sp =>
         have hsko : keyOk sk = true := by rw [keyOk_iff_keyPath, hskp]; rfl
         rw [hskp] at hsrc hscanon
@@ -215,7 +215,7 @@ theorem uploadPartCopy_refines (H : Hashes) (dl : Nat) {s : State} (hi : Inv s) 
           have hsabs : (abs s).bucket sb = none := by rw [abs_bucket, hst]; rfl
           have hh : alHas sb s.buckets = false := by
             unfold State.tree at hst; simp [alHas, hst]
-          simp [step, StoreSpec.step, State.verify, hl, hown, hnr, hup, hown', objPath, hsbd, hskp, hsbo, hsko,
+          simp [step, StoreSpec.step, State.verify, findUpload_bound hl hb hk, hown, hnr, hup, hown', objPath, hsbd, hskp, hsbo, hsko,
             hsabs, State.node, hst, hh, hi]
         | some st =>
           rw [hst] at hsrc
@@ -229,7 +229,7 @@ theorem uploadPartCopy_refines (H : Hashes) (dl : Nat) {s : State} (hi : Inv s) 
             have hh : alHas sb s.buckets = true := by
               unfold State.tree at hst; simp [alHas, hst]
             rw [hsn] at hslook
-            simp [step, StoreSpec.step, State.verify, hl, hown, hnr, hup, hown', objPath, hsbd, hskp, hsbo, hsko,
+            simp [step, StoreSpec.step, State.verify, findUpload_bound hl hb hk, hown, hnr, hup, hown', objPath, hsbd, hskp, hsbo, hsko,
               hsabs, hsnode, hsn, hslook, hh, hi]
           | some nd =>
             cases nd with
@@ -245,7 +245,7 @@ theorem uploadPartCopy_refines (H : Hashes) (dl : Nat) {s : State} (hi : Inv s) 
                 have hstep : step H dl s (.uploadPartCopy who b k (some id) n sb sk none) =
                     ({ s with parts := alInsert (id, n) c s.parts }, .part (some (etagOf H c))) := by
                   have h0 : ¬ (0 > i64Max) := by decide
-                  simp [step, hnr, State.verify, hl, hown, objPath, hsbd, hskp, hsnode, hsn, copyRange, h0]
+                  simp [step, hnr, State.verify, findUpload_bound hl hb hk, hown, objPath, hsbd, hskp, hsnode, hsn, copyRange, h0]
                 have hspec : StoreSpec.step H (abs s) (.uploadPartCopy who b k (some id) n sb sk none) =
                     ({ abs s with uploads := alInsert id (withPart (upOf s id ui) n c) (abs s).uploads },
                       .part (some (etagOf H c))) := by
@@ -261,7 +261,7 @@ theorem uploadPartCopy_refines (H : Hashes) (dl : Nat) {s : State} (hi : Inv s) 
                   rw [hcr] at hmodel
                   have hstep : step H dl s (.uploadPartCopy who b k (some id) n sb sk (some r)) =
                       (s, .err .InvalidArgument) := by
-                    simp [step, hnr, State.verify, hl, hown, objPath, hsbd, hskp, hsnode, hsn, hmodel]
+                    simp [step, hnr, State.verify, findUpload_bound hl hb hk, hown, objPath, hsbd, hskp, hsnode, hsn, hmodel]
                   have hspec : StoreSpec.step H (abs s) (.uploadPartCopy who b k (some id) n sb sk (some r)) =
                       (abs s, .err .InvalidArgument) := by
                     simp [StoreSpec.step, hnr, hup, hown', hsbo, hsko, hsabs, hslook, hcr]
@@ -275,7 +275,7 @@ theorem uploadPartCopy_refines (H : Hashes) (dl : Nat) {s : State} (hi : Inv s) 
                   have hstep : step H dl s (.uploadPartCopy who b k (some id) n sb sk (some r)) =
                       ({ s with parts := alInsert (id, n) (slice c st en) s.parts },
                         .part (some (etagOf H (slice c st en)))) := by
-                    simp [step, hnr, State.verify, hl, hown, objPath, hsbd, hskp, hsnode, hsn, hmodel, hst, slice]
+                    simp [step, hnr, State.verify, findUpload_bound hl hb hk, hown, objPath, hsbd, hskp, hsnode, hsn, hmodel, hst, slice]
                   have hspec : StoreSpec.step H (abs s) (.uploadPartCopy who b k (some id) n sb sk (some r)) =
                       ({ abs s with uploads := alInsert id (withPart (upOf s id ui) n (slice c st en)) (abs s).uploads },
                         .part (some (etagOf H (slice c st en)))) := by
@@ -283,8 +283,8 @@ theorem uploadPartCopy_refines (H : Hashes) (dl : Nat) {s : State} (hi : Inv s) 
                   rw [hstep, hspec]
                   obtain ⟨e1, e2⟩ := writePart_core (s' := { s with parts := alInsert (id, n) (slice c st en) s.parts }) hi hl rfl rfl rfl rfl rfl rfl rfl
                   exact ⟨rfl, e1, e2⟩
-    · simp [step, StoreSpec.step, State.verify, hl, hown, hnr, hup, hown', objPath, hsbd, hsbo, hi]
+    · simp [step, StoreSpec.step, State.verify, findUpload_bound hl hb hk, hown, hnr, hup, hown', objPath, hsbd, hsbo, hi]
   · have hown' : (upOf s id ui).owner ≠ who := hown
-    simp [step, StoreSpec.step, State.verify, hl, hown, hnr, hup, hown', hi]
+    simp [step, StoreSpec.step, State.verify, findUpload_bound hl hb hk, hown, hnr, hup, hown', hi]
 
 end S3V.FsStore
